@@ -191,10 +191,11 @@ Section Proofs.
     wf_live lv = true -> In l lv -> In m (l_methods l) -> prev_decl before (fst m) (snd m) = Some p ->
     let after := regen_n method_src access_src struct_src stub_body default_doc copied (S k) lv before in
     option_map d_body (prev_decl after (fst m) (snd m)) = Some (d_body p) /\
+    option_map d_results (prev_decl after (fst m) (snd m)) = Some (d_results p) /\
     (String.eqb (d_doc p) "" = false -> option_map d_doc (prev_decl after (fst m) (snd m)) = Some (d_doc p)).
   Proof.
     intros W Hl Hm Hp after. subst after. rewrite (body_kept_forever_lemma lv before k l m W Hl Hm).
-    unfold gen_method. rewrite Hp. cbn [option_map d_body d_doc]. split; [reflexivity|].
+    unfold gen_method. rewrite Hp. cbn [option_map d_body d_doc d_results]. split; [reflexivity|]. split; [reflexivity|].
     intros Hd. unfold doc_or_default. now rewrite Hd.
   Qed.
 End Proofs.
